@@ -10,8 +10,10 @@ import (
 	"fmt"
 	"os"
 	"strings"
+	"time"
 
 	"verifharness/core"
+	"verifharness/hplug"
 	"verifharness/plangen"
 	"verifharness/storelib"
 
@@ -93,6 +95,7 @@ func closeVault(b *storelib.Backend, rec *storelib.Rec) {
 func main() {
 	nOps := flag.Int("oplists", 48, "number of operation-list cases")
 	nSingle := flag.Int("singles", 60, "number of create+read cases with big plans")
+	nReg := flag.Int("regchange", 8, "number of cases that read through a registry with a changed response type")
 	nPaged := flag.Int("paged", 9, "number of cosmosdb create+read cases with paged query results")
 	maxOps := flag.Int("max-ops", 30, "maximum operation list length")
 	backends := flag.String("backends", "sqlite-mem,sqlite-file,cosmos-fake", "comma separated")
@@ -131,6 +134,73 @@ func main() {
 			ID: fmt.Sprintf("paged-%d", i), Kind: "paged", Coq: rec.CaseTerm(), Nontrivial: true, Hash: core.Hash(rec.CaseTerm()),
 			Dist: map[string]any{"backend": bk, "plans": 1, "ops": rec.Steps(), "reads": rec.Reads, "table": rec.TableSize(),
 				"ophist": rec.OpHist, "objects": objects([]*planSlot{{ref: ref}}), "page_size": b.PageSize},
+			Input: map[string]any{"seed": core.Seed(), "index": i, "backend": bk}, Observed: rec.Log, Note: rec.Note(),
+		})
+		closeVault(b, rec)
+	}
+
+	// family regchange: attempts with responses are written through one registry; then the store is read
+	// through a registry in which the Action / Check plugins declare another response type (a restart with
+	// a changed build; file-backed sqlite is really closed and reopened). Read of a plan that holds such an
+	// attempt must be an ERROR - never a plan with the attempt missing; switched back, it reads as before.
+	for i := 0; i < *nReg; i++ {
+		r := root.Fork(uint64(800000 + i))
+		bk := []string{"sqlite-file", "sqlite-mem", "cosmos-fake", "sqlite-file"}[i%4]
+		set, change := storelib.NewSwitchSet()
+		b, err := storelib.Open(ctx, bk, set)
+		if err != nil {
+			fmt.Fprintln(os.Stderr, "open", bk, err)
+			os.Exit(2)
+		}
+		rec := storelib.NewRec(ctx, b, set)
+		rWith, rOther := r.Fork(1), r.Fork(2)
+		with := func() *workflow.Plan { // some Action/Check-plugin action carries an attempt with a typed response
+			p := maker(rWith, false, false)()
+			for _, a := range storelib.ObjectsOf(p).Actions {
+				if a.Plugin == hplug.ActionName || a.Plugin == hplug.CheckName {
+					a.Req = hplug.Req{Nonce: "n", Path: "regchange"}
+					a.Attempts = append(a.Attempts, &workflow.Attempt{Resp: hplug.Resp{Path: "stored", Value: 42, Items: []string{"x"}},
+						Start: time.Unix(1700000000, 1), End: time.Unix(1700000001, 2)})
+					break
+				}
+			}
+			return p
+		}
+		other := func() *workflow.Plan { // no attempt of the changed type: stays readable
+			p := maker(rOther, false, false)()
+			for _, a := range storelib.ObjectsOf(p).Actions {
+				if a.Plugin == hplug.ActionName || a.Plugin == hplug.CheckName {
+					a.Req = hplug.Req{Nonce: "n", Path: "regchange"}
+					for _, at := range a.Attempts {
+						at.Resp = nil
+					}
+				}
+			}
+			return p
+		}
+		has := false
+		for _, a := range storelib.ObjectsOf(with()).Actions {
+			has = has || a.Plugin == hplug.ActionName || a.Plugin == hplug.CheckName
+		}
+		rec.IDs = []uuid.UUID{with().ID, other().ID}
+		rec.Create(with(), with(), "create")
+		rec.Create(other(), other(), "create")
+		change(true)
+		if err := b.Reopen(ctx, set); err != nil {
+			fmt.Fprintln(os.Stderr, "reopen", err)
+			os.Exit(2)
+		}
+		rec.SetBadType(hplug.Resp{}, "registry-changed")
+		change(false)
+		if err := b.Reopen(ctx, set); err != nil {
+			fmt.Fprintln(os.Stderr, "reopen", err)
+			os.Exit(2)
+		}
+		rec.SetBadType(nil, "registry-restored")
+		w.Put(core.Case{
+			ID: fmt.Sprintf("regchange-%d", i), Kind: "regchange", Coq: rec.CaseTerm(), Nontrivial: has, Hash: core.Hash(rec.CaseTerm()),
+			Dist: map[string]any{"backend": bk, "plans": 2, "ops": rec.Steps(), "reads": rec.Reads, "table": rec.TableSize(),
+				"ophist": rec.OpHist, "objects": objects([]*planSlot{{ref: with()}, {ref: other()}}), "has_typed_attempt": has},
 			Input: map[string]any{"seed": core.Seed(), "index": i, "backend": bk}, Observed: rec.Log, Note: rec.Note(),
 		})
 		closeVault(b, rec)
